@@ -211,8 +211,8 @@ def compute(F):
     return out, nclos
 
 
-def load_table():
-    p = os.path.join(V, "tables", "mustpass.json")
+def load_table(cfg="default"):
+    p = os.path.join(V, "tables", "mustpass.json" if cfg == "default" else "mustpass-%s.json" % cfg)
     if not os.path.exists(p):
         return None
     with open(p) as f:
@@ -239,10 +239,10 @@ def witness(b, bbs, fail):
     return None
 
 
-def run(ctx, F, prop):
-    tab = load_table()
+def run(ctx, F, prop, cfg="default"):
+    tab = load_table(cfg)
     if tab is None:
-        ctx.finding("R-PATH", "table-missing", "tables/mustpass.json is missing")
+        ctx.finding("R-PATH", "table-missing|%s" % cfg, "the must-pass table of configuration %s is missing" % cfg)
         return
     files = prop_files(prop)
     nclos = {}
